@@ -164,17 +164,20 @@ def rtuTail (rate : Nat) (r : (Except Err Pdu) × Bytes) : List Op :=
   | (.error .shortFrame, rest) => resyncOps rate rest.length
   | _ => []
 
-/-- `rtuTransport.ExecuteRequest` on a link at `rate` baud:
+/-- `rtuTransport.ExecuteRequest` on a link at `rate` baud (the code since fix c501b6a):
     `SetDeadline(now + timeout)`; `Sleep(waitNs)` only if the line was active less than t3.5 ago
     (`waitNs > 0`); `Write`; `Sleep(postNs)` (always called; `postNs` = lastActivity + t3.5 - now,
-    0 if negative); `readRTUFrame` on the stream `s` ending with `e`; on ErrBadCRC /
-    ErrProtocolError / ErrShortFrame the resynchronisation sleep and `discard`.
+    0 if negative); `SetDeadline(now + timeout)` AGAIN - the request has only now left the line,
+    the device gets the whole timeout to respond; `readRTUFrame` on the stream `s` ending with
+    `e`; on ErrBadCRC / ErrProtocolError / ErrShortFrame the resynchronisation sleep and `discard`.
     (Whether a stream that ends inside the frame body is a short frame depends on the ending:
-    EOF gives ErrShortFrame, a timeout or reset gives that error; hence the parameter `e`.) -/
+    EOF gives ErrShortFrame, a timeout or reset gives that error; hence the parameter `e`.)
+    The single-deadline trace of the code before the fix is `Io.rtuTraceOld` (IoTraceExt.lean). -/
 def rtuTrace (timeoutNs rate : Nat) (frameLen : Nat) (waitNs postNs : Nat) (s : Bytes)
     (e : Ending) : List Op :=
   [.setDeadline timeoutNs] ++ (if waitNs > 0 then [.sleep waitNs] else []) ++
-    [.write frameLen, .sleep postNs] ++ rtuReadOps s ++ rtuTail rate (Rtu.readFrame s e)
+    [.write frameLen, .sleep postNs, .setDeadline timeoutNs] ++ rtuReadOps s ++
+    rtuTail rate (Rtu.readFrame s e)
 
 /-! ### symbolic clock -/
 
@@ -217,9 +220,10 @@ def runClock (ε : Nat) : Clock → List (Op × Nat) → Option Clock
   | c, [] => some c
   | c, (op, d) :: rest => if durOk ε c op d then runClock ε (c.step op d) rest else none
 
-/-- the fixed margin of an RTU exchange over its timeout: the two inter-frame sleeps, the
-    resynchronisation sleep `256 * t1`, the 500 µs `discard` deadline, and one oversleep `ε`
-    per sleep -/
+/-- the fixed margin of an RTU exchange over its timeout, NOT counting the time `Write` takes
+    (`C07_elapsed_rtu`: the call ends by `t0 + T + rtuMargin + dWrite`): the two inter-frame
+    sleeps, the resynchronisation sleep `256 * t1`, the 500 µs `discard` deadline, and one
+    oversleep `ε` per sleep -/
 def rtuMargin (rate waitNs postNs ε : Nat) : Nat :=
   (if waitNs > 0 then waitNs + ε else 0) + (postNs + ε) +
     (Timing.maxRTUFrameLength * Timing.t1 rate + ε) + 500000
@@ -232,6 +236,6 @@ def rtuMargin (rate waitNs postNs ε : Nat) : Nat :=
 #guard showTrace (mbapTrace 1000000 12 0x1235 [0x12, 0x35, 0, 0, 0, 5, 1, 3, 2, 0xAB, 0xCD]) =
   "sd:1000000 w:12 r:7:7 r:4:4"
 #guard showTrace (rtuTrace 1000000 19200 8 250000 5916661 [0x01, 0x03, 0x02, 0x00, 0x0a, 0x38, 0x44, 0xFF] .timeout) =
-  "sd:1000000 sl:250000 w:8 sl:5916661 r:3:3 r:4:4 sl:146666496 sd:500000 r:1024:1 re:1023"
+  "sd:1000000 sl:250000 w:8 sl:5916661 sd:1000000 r:3:3 r:4:4 sl:146666496 sd:500000 r:1024:1 re:1023"
 
 end Modbus.Io
